@@ -97,7 +97,7 @@ CLAIMED.update({
     "C15": dict(
         text="Machine-checked theorems (Properties/C15.v): an interleaving LTS of recorder threads (each operation = three atomic increments in the program order of metrics.rs); for any number of "
              "threads, programs and interleavings, at every quiescent state total = http+grpc+redis = allowed+denied+errors and each counter equals the events performed; counters are monotone; "
-             "and on RESP a command is counted as denied exactly when the reply sent is a denial decision (command-handler model). Real Metrics exercised with 2..64 OS threads and over TCP.",
+             "on RESP a command is counted as denied exactly when the reply sent is a denial decision (command-handler model); the HTTP and gRPC handlers' recorder calls (re-extracted from the sources) record the limiter's own flag / an error. Real Metrics exercised with 2..64 OS threads, over TCP, and by scraping /metrics of the real server at every quiescent point of mixed-protocol sessions.",
         note=RESP_NOTE + " Atomicity of fetch_add and the happens-before edge at a quiescent point are modelled, not verified.",
         technique="Coq proof (invariant over an interleaving transition system; case analysis of the command handler) + multi-threaded and TCP differential correspondence", ref="DESIGN.md §5 C15"),
     "C16": dict(
